@@ -216,6 +216,7 @@ def run(repo: Repo, tier: str, res: CheckResult, seed: int = 0) -> None:
     res.count("PURE.closures", n_closures, 90)
     container_coercers(repo, res)
     memoised_runtime_functions(repo, res)
+    factory_called_at_build(repo, res)
     from .. import genprog
     genprog.c20_checks(repo, tier, res, seed)
     res.assumptions = list(ASSUMPTIONS)
@@ -415,3 +416,48 @@ def memoised_runtime_functions(repo: Repo, res: CheckResult) -> None:
     if len(got) != 1 or norm(got[0][1]) != "key_loader":
         raise AnalysisError("MEMO rule fixture no longer matches")
     res.evaluated("memo:fixture", True)
+
+
+# ---------------------------------------------------------------------------------------------------------------------
+# A default / link_constant FACTORY produces a new object per call of the loader or converter. Provider code may hand the
+# factory on (FunctionElement, namespace constant called in the body) but must not call it itself and keep the product: a
+# product frozen into a ConstantElement / DefaultValue / namespace constant is one object for every result.
+_FREEZERS = ("ConstantElement", "DefaultValue", "add_constant", "add_outer_constant", "try_add_constant")
+
+
+def factory_called_at_build(repo: Repo, res: CheckResult) -> None:
+    n = 0
+    for m in repo.modules.values():
+        if "/morphing/" not in m.rel and "/conversion/" not in m.rel:
+            continue
+        for fn in [f for f in ast.walk(m.tree) if isinstance(f, ast.FunctionDef)]:
+            calls = [c for c in walk_no_nested(fn, include_root=False)
+                     if isinstance(c, ast.Call) and isinstance(c.func, ast.Attribute) and c.func.attr == "factory" and not c.args and not c.keywords]
+            for c in calls:
+                n += 1
+                res.evaluated(f"factory-at-build:{m.rel}:{m.qualname(fn)}:{c.lineno}", True)
+                frozen = None
+                p = m.parent(c)
+                names: Set[str] = set()
+                while p is not None and p is not fn:
+                    if isinstance(p, ast.Call) and norm(p.func).split(".")[-1] in _FREEZERS:
+                        frozen = p
+                        break
+                    if isinstance(p, ast.Assign):
+                        names |= {t.id for t in p.targets if isinstance(t, ast.Name)}
+                    p = m.parent(p)
+                if frozen is None and names:
+                    for fz in walk_no_nested(fn, include_root=False):
+                        if isinstance(fz, ast.Call) and norm(fz.func).split(".")[-1] in _FREEZERS and any(
+                                isinstance(x, ast.Name) and x.id in names for x in ast.walk(fz)):
+                            frozen = fz
+                            break
+                if frozen is not None:
+                    res.add(Finding("C20", "FRESH.factory-product-frozen", m.rel, m.qualname(fn), norm(frozen)[:100],
+                                    f"`{norm(c)}` calls the user's factory while the loader / converter is BUILT and `{norm(frozen)[:60]}` keeps "
+                                    "the product: unless it happens to be renderable as a literal it is one object shared by every "
+                                    "result (and the factory is never run again)", c.lineno))
+    res.count("FRESH.build-time-factory-calls", n, 0)
+    fx = ast.parse("def g(self, linking):\n    return ConstantElement(value=linking.constant.factory())\n")
+    if not [c for c in ast.walk(fx) if isinstance(c, ast.Call) and isinstance(c.func, ast.Attribute) and c.func.attr == "factory"]:
+        raise AnalysisError("factory-at-build fixture no longer matches")
